@@ -17,8 +17,9 @@ understood, the call is left alone."""
 import copy
 import json
 
-MAX_BLOCKS = 14
-MAX_CALLS = 4
+MAX_BLOCKS = 400
+MAX_CALLS = 120
+MAX_SITES = 12     # a new function called from more places than this is left alone (it is not a wrapper of one code path)
 
 
 class _Map:
@@ -151,9 +152,11 @@ def _has_loop(g):
 
 
 def _is_thin_sync(g, known, parents):
+    """a NEW (unknown to the rules) plain function that can be inlined: any shape but recursion (loops and nested closures are
+    fine: the closures stay separate bodies and are re-parented to the caller when the function disappears)"""
     if g['id'] in known or g.get('kind') not in ('Fn', 'AssocFn') or g.get('async') or g.get('coroutine'):
         return False
-    if g['id'] in parents or not g.get('file', '').startswith('src/') or '::tests::' in g['id'] or '::test::' in g['id']:
+    if not g.get('file', '').startswith('src/') or '::tests::' in g['id'] or '::test::' in g['id']:
         return False
     if g.get('trait_item') or g.get('impl_trait'):
         return False
@@ -167,7 +170,7 @@ def _is_thin_sync(g, known, parents):
         return False
     if not any(b['t']['k'] == 'return' for b in live):
         return False
-    return not _has_loop(g)
+    return True
 
 
 def _inline_sync(f, bi, g):
@@ -337,6 +340,212 @@ def _inline_async(f, bi, stub, body, prim_t, chain):
     return True
 
 
+# --------------------------------------------------------------------------------------------------------------------------
+# new async helpers: the coroutine body of `async fn h(a, b)` replaces `h(a, b).await` in the caller
+# --------------------------------------------------------------------------------------------------------------------------
+
+def _await_shape(f, bi):
+    """the await of the future produced by the call in block `bi` of coroutine body `f` (facts from mir_built):
+       bi: fut = h(..) -> b1;  b1: f2 = into_future(move fut) -> ..;  .. poll(pin, cx) -> bs;  bs: switch discr(poll) [0 -> ready]
+    returns (poll local, ready block) or None"""
+    t = f['blocks'][bi]['t']
+    if t.get('t') is None or t['d'][1]:
+        return None
+    fut = t['d'][0]
+    b1 = f['blocks'][t['t']]
+    t1 = b1['t']
+    if t1['k'] != 'call' or t1['f'].get('name') != 'into_future' or not t1['args']:
+        return None
+    a0 = t1['args'][0].get('m') or t1['args'][0].get('c')
+    if a0 is None or a0[0] != fut:
+        return None
+    cur = t1.get('t')
+    seen = set()
+    for _ in range(12):
+        if cur is None or cur in seen:
+            return None
+        seen.add(cur)
+        b = f['blocks'][cur]
+        tt = b['t']
+        if tt['k'] == 'call' and tt['f'].get('name') == 'poll':
+            poll = tt['d'][0]
+            sw = f['blocks'][tt['t']]
+            if sw['t']['k'] != 'switch':
+                return None
+            ready = None
+            for v, tg in sw['t']['vals']:
+                if v == 0:
+                    ready = tg
+            if ready is None:
+                return None
+            return (poll, ready)
+        if tt['k'] in ('goto',):
+            cur = tt['t']
+        elif tt['k'] == 'call' and tt['f'].get('name') in ('new_unchecked', 'get_context'):
+            cur = tt.get('t')
+        else:
+            return None
+    return None
+
+
+def _is_new_async(stub, body, known):
+    if stub['id'] in known or not stub.get('async') or not stub.get('file', '').startswith('src/') or '::tests::' in stub['id']:
+        return False
+    if stub.get('trait_item') or stub.get('impl_trait'):
+        return False
+    live = [b for b in body['blocks'] if not b['c']]
+    if len(live) > 3 * MAX_BLOCKS:
+        return False
+    if any(b['t']['k'] == 'call' and _callee_id(b['t']) == stub['id'] for b in live):
+        return False
+    return any(b['t']['k'] == 'return' for b in live)
+
+
+def _inline_async_body(f, bi, stub, body):
+    """replace `h(args).await` (the call in block bi of coroutine f and its poll loop) by the body of h's coroutine"""
+    if not f.get('coroutine'):
+        return False
+    shape = _await_shape(f, bi)
+    if shape is None:
+        return False
+    poll_local, ready = shape
+    B = f['blocks'][bi]
+    t = B['t']
+    up = None
+    for b in stub['blocks']:
+        for st in b['s']:
+            if st['k'] == 'a' and st['d'] == [0, []] and st['r']['k'] == 'agg' and st['r'].get('ak') in ('coroutine', 'closure'):
+                up = [o.get('m', o.get('c')) for o in st['r']['ops']]
+    if up is None or any(u is None or u[1] or u[0] < 1 or u[0] > stub['argc'] for u in up) or len(t['args']) != stub['argc']:
+        return False
+    base = len(f['locals'])
+    nb = len(f['blocks'])
+    f['locals'].extend(copy.deepcopy(body['locals']))
+    line = t.get('l', 0)
+    # one fresh local per upvar, assigned from the caller's argument
+    upl = []
+    for i, u in enumerate(up):
+        f['locals'].append(copy.deepcopy(stub['locals'][u[0]]))
+        l = len(f['locals']) - 1
+        upl.append(l)
+        a = t['args'][u[0] - 1]
+        B['s'].append({'k': 'a', 'd': [l, []], 'r': {'k': 'use', 'o': a}, 'l': line})
+        src = a.get('m', a.get('c')) if isinstance(a, dict) else None
+        if src is not None and not src[1] and f['locals'][l].get('h') == 'param':
+            f['locals'][l] = copy.deepcopy(f['locals'][src[0]])
+
+    def mp(p):
+        l, proj = p
+        proj2 = [({'i': e['i'] + base} if isinstance(e, dict) and 'i' in e else e) for e in proj]
+        if l == 1:
+            pr = list(proj2)
+            while pr and pr[0] == '*':
+                pr = pr[1:]
+            if pr and isinstance(pr[0], dict) and 'f' in pr[0] and pr[0]['f'] < len(upl):
+                return [upl[pr[0]['f']], pr[1:]]
+            raise ValueError('coroutine state used as a whole')
+        return [l + base, proj2]
+
+    def mo(o):
+        if isinstance(o, dict) and 'c' in o:
+            return {'c': mp(o['c'])}
+        if isinstance(o, dict) and 'm' in o:
+            return {'m': mp(o['m'])}
+        return o
+
+    def mr(r):
+        r = dict(r)
+        for k in ('o', 'a', 'b'):
+            if isinstance(r.get(k), dict):
+                r[k] = mo(r[k])
+        if 'ops' in r:
+            r['ops'] = [mo(o) for o in r['ops']]
+        if 'p' in r and isinstance(r['p'], list):
+            r['p'] = mp(r['p'])
+        return r
+
+    def blk(x):
+        return x + nb if isinstance(x, int) and not isinstance(x, bool) else x
+    new_blocks = []
+    try:
+        for gb in body['blocks']:
+            ss = []
+            for st in gb['s']:
+                st2 = dict(st)
+                if st['k'] in ('sl', 'sd'):
+                    st2['v'] = st['v'] + base
+                elif st['k'] == 'a':
+                    st2['d'] = mp(st['d'])
+                    st2['r'] = mr(st['r'])
+                elif st['k'] == 'setdiscr':
+                    st2['d'] = mp(st['d'])
+                ss.append(st2)
+            tt = copy.deepcopy(gb['t'])
+            k = tt['k']
+            if k == 'goto':
+                tt['t'] = blk(tt['t'])
+                if 'false_edge' in tt:
+                    tt['false_edge'] = blk(tt['false_edge'])
+            elif k == 'switch':
+                tt['o'] = mo(tt['o'])
+                tt['vals'] = [[v, blk(x)] for v, x in tt['vals']]
+                tt['otherwise'] = blk(tt['otherwise'])
+            elif k == 'drop':
+                if tt['p'] == [1, []]:
+                    # the drop of the coroutine's own state at its end: nothing of the caller is dropped there
+                    tt = {'k': 'goto', 't': blk(tt['t']), 'l': tt.get('l', 0)}
+                    k = 'goto'
+                else:
+                    tt['p'] = mp(tt['p'])
+                    tt['t'] = blk(tt['t'])
+                    tt['u'] = blk(tt.get('u'))
+                    tt['cd'] = blk(tt.get('cd'))
+            elif k == 'call':
+                if 'indirect' in tt['f']:
+                    tt['f'] = {'indirect': mo(tt['f']['indirect'])}
+                tt['args'] = [mo(a) for a in tt['args']]
+                tt['d'] = mp(tt['d'])
+                tt['t'] = blk(tt['t'])
+                tt['u'] = blk(tt.get('u'))
+            elif k == 'assert':
+                tt['o'] = mo(tt['o'])
+                tt['t'] = blk(tt['t'])
+                tt['u'] = blk(tt.get('u'))
+            elif k == 'yield':
+                tt['o'] = mo(tt['o'])
+                tt['resume'] = blk(tt['resume'])
+                tt['ra'] = mp(tt['ra'])
+                tt['drop'] = blk(tt.get('drop'))
+            nbk = {'c': gb['c'], 's': ss, 't': tt, 'inl': stub['id']}
+            if k == 'return' and not gb['c']:
+                # the awaited value: `poll = Poll::Ready(result)`, then the caller's Ready arm
+                nbk['s'].append({'k': 'a', 'd': [poll_local, []], 'r': {'k': 'agg', 'ak': 'adt', 'adt': 'std::task::Poll', 'variant': 'Ready', 'vd': 0,
+                                                                         'fields': ['0'], 'ops': [{'m': [base, []]}]}, 'l': line})
+                nbk['t'] = {'k': 'goto', 't': ready, 'l': line}
+            new_blocks.append(nbk)
+    except (ValueError, KeyError, IndexError, TypeError):
+        del f['locals'][base:]
+        del B['s'][len(B['s']) - len(upl):]
+        return False
+    # the poll loop of the replaced await is dead now: make it invisible (its blocks still define locals the rules would follow)
+    dead, work = set(), [t['t']]
+    while work:
+        x = work.pop()
+        if x is None or x in dead or x == ready or x >= nb:
+            continue
+        dead.add(x)
+        bx = f['blocks'][x]
+        work.extend(_succ(bx))
+        if bx['t']['k'] == 'yield':
+            work.append(bx['t'].get('resume'))
+    for x in dead:
+        f['blocks'][x] = {'c': True, 's': [], 't': {'k': 'unreachable'}, 'dead_await': True}
+    f['blocks'].extend(new_blocks)
+    B['t'] = {'k': 'goto', 't': nb, 'l': line}
+    f.setdefault('inlined', []).append(stub['id'])
+    return True
+
+
 def _mentions(j, fid):
     """is `fid` referred to as a value (fn item passed as an argument) anywhere?"""
     needle = json.dumps(fid)
@@ -351,25 +560,45 @@ def _mentions(j, fid):
     return False
 
 
+def _reparent(j, gid, new_parent, old_root=None):
+    """closures / coroutines nested in an inlined function become children of the (single) caller"""
+    np = next((f for f in j['fns'] if f['id'] == new_parent), None)
+    if np is None:
+        return
+    for f in j['fns']:
+        if f.get('parent') == gid:
+            f['parent'] = new_parent
+        if f.get('root') in (gid, old_root) and f['id'] not in (gid, old_root):
+            f['root'] = np.get('root', np['id'])
+
+
 def inline_new_thin(j, known):
     """returns the list of (function id, number of inlined call sites, dropped?)"""
     report = {}
-    for _round in range(4):
+    callers = {}
+    for _round in range(5):
         fns = {f['id']: f for f in j['fns']}
         parents = {f.get('parent') for f in j['fns'] if f.get('parent')}
+        # call-site counts: a new function used all over the place is not a wrapper of one code path
+        sites = {}
+        for f in j['fns']:
+            for b in f['blocks']:
+                if not b['c'] and b['t']['k'] == 'call':
+                    cid = _callee_id(b['t'])
+                    if cid:
+                        sites[cid] = sites.get(cid, 0) + 1
         thin = {}
-        thin_async = {}
+        new_async = {}
         for g in j['fns']:
+            if g['id'] in known or sites.get(g['id'], 0) == 0 or sites.get(g['id'], 0) > MAX_SITES:
+                continue
             if _is_thin_sync(g, known, parents):
                 thin[g['id']] = copy.deepcopy(g)
-            elif g.get('async') and g['id'] not in known:
+            elif g.get('async'):
                 body = fns.get(g['id'] + '::{closure#0}')
-                if body is not None:
-                    grand = [f.get('parent') for f in j['fns'] if f.get('parent')]
-                    r = _thin_async(g, body, known, grand)
-                    if r is not None:
-                        thin_async[g['id']] = (copy.deepcopy(g), copy.deepcopy(body), r[0], r[1])
-        if not thin and not thin_async:
+                if body is not None and _is_new_async(g, body, known):
+                    new_async[g['id']] = (copy.deepcopy(g), copy.deepcopy(body))
+        if not thin and not new_async:
             break
         changed = False
         for f in j['fns']:
@@ -379,16 +608,19 @@ def inline_new_thin(j, known):
                 if b['c'] or b['t']['k'] != 'call':
                     continue
                 cid = _callee_id(b['t'])
-                if cid is None or cid == f['id']:
+                if cid is None or cid == f['id'] or f['id'].startswith(cid + '::'):
                     continue
-                if cid in thin and f['id'] != cid:
+                if cid in thin:
                     if _inline_sync(f, bi, thin[cid]):
                         report[cid] = report.get(cid, 0) + 1
+                        callers.setdefault(cid, set()).add(f['id'])
                         changed = True
-                elif cid in thin_async and not f['id'].startswith(cid + '::'):
-                    stub, body, pt, chain = thin_async[cid]
-                    if _inline_async(f, bi, stub, body, pt, chain):
+                elif cid in new_async:
+                    stub, body = new_async[cid]
+                    if _inline_async_body(f, bi, stub, body):
                         report[cid] = report.get(cid, 0) + 1
+                        callers.setdefault(cid + '::{closure#0}', set()).add(f['id'])
+                        callers.setdefault(cid, set()).add(f['id'])
                         changed = True
         if not changed:
             break
@@ -406,7 +638,16 @@ def inline_new_thin(j, known):
             g = next((f for f in j['fns'] if f['id'] == fid), None)
             if g is None or fid in called or g.get('pub') or _mentions(j, fid):
                 continue
-            fam = {fid} | {f['id'] for f in j['fns'] if f['id'].startswith(fid + '::{')}
-            j['fns'] = [f for f in j['fns'] if f['id'] not in fam]
+            body_id = fid + '::{closure#0}' if g.get('async') else fid
+            who = callers.get(body_id) or callers.get(fid) or set()
+            if len(who) == 1:
+                _reparent(j, body_id, next(iter(who)), fid)
+                drop = {fid, body_id}
+            else:
+                # nested closures keep their (now absent) parent only if there are none
+                if any(f.get('parent') == body_id or (f.get('root') == fid and f['id'] not in (fid, body_id)) for f in j['fns']):
+                    continue
+                drop = {fid, body_id}
+            j['fns'] = [f for f in j['fns'] if f['id'] not in drop]
             dropped.append(fid)
     return [(fid, n, fid in dropped) for fid, n in sorted(report.items())]
